@@ -185,13 +185,18 @@ def run_check(pid, tier, seed, jobs=16, only=None):
             ctx.log("known finding %s no longer reproduces; its region is checked like everything else" % ent["id"])
 
     # ---- co-simulation (translator validation) ----
+    cosim_violations = []
     cosim_n = 0
     try:
         if hasattr(spec, "cosim"):
             cosim_n = spec.cosim(ctx, native)
             ctx.log("co-simulation: %d vectors agree with the native build" % cosim_n)
     except Exception as e:
-        inconclusive.append("co-simulation: %s" % str(e)[:600])
+        if type(e).__name__ == "NativeViolation":
+            # observed on the native build, against the property's oracle: a violation in its own right (already "replayed")
+            cosim_violations.append({"vc": "co-simulation", "case": "co-simulation", "inputs": {}, "info": {}, "replay": e.replay})
+        else:
+            inconclusive.append("co-simulation: %s" % str(e)[:600])
         ctx.log("co-simulation FAILED: %s\n%s" % (e, traceback.format_exc()[-1500:]))
 
     # ---- run cases ----
@@ -223,12 +228,12 @@ def run_check(pid, tier, seed, jobs=16, only=None):
 
     try:
         os.makedirs(os.path.join(VERIF, "build"), exist_ok=True)
-        with open(os.path.join(VERIF, "build", "last-%s-violations.json" % pid), "w") as f:
+        with open(os.path.join(VERIF, "build", "last-%s%s-violations.json" % (pid, build.ALT)), "w") as f:
             json.dump(violations, f, indent=0, default=str)
     except Exception:
         pass
     # ---- replay counterexamples natively ----
-    confirmed = []
+    confirmed = list(cosim_violations)
     # fair order: the first 3 counterexamples of every case before the rest (a flood from one case must not starve the others)
     per_case = {}
     head, tail = [], []
@@ -252,7 +257,7 @@ def run_check(pid, tier, seed, jobs=16, only=None):
     rc = 0
     out_lines = list(known_lines)
     if confirmed:
-        os.makedirs(os.path.join(VERIF, "build", "replays"), exist_ok=True)
+        os.makedirs(os.path.join(VERIF, "build", "replays" + build.ALT), exist_ok=True)
         # de-duplicate by (case kind, observed/expected)
         seen = set()
         k = 0
@@ -262,7 +267,7 @@ def run_check(pid, tier, seed, jobs=16, only=None):
                 continue
             seen.add(sig)
             k += 1
-            rpath = os.path.join(VERIF, "build", "replays", "%s-%d.json" % (pid, k))
+            rpath = os.path.join(VERIF, "build", "replays" + build.ALT, "%s-%d.json" % (pid, k))
             with open(rpath, "w") as f:
                 json.dump({"property": pid, "vc": v.get("vc"), "case": v.get("case"), "inputs": v.get("inputs"),
                            "replay": v["replay"],
